@@ -117,6 +117,36 @@ impl<T: Elem + SatisfyTraits<Tr>, M: MX, Tr: TrX + ?Sized> World<T, M, Tr> {
         out.outcome.push_str("ok");
     }
 
+    /// C07, typed view: forget the typed drain / splice iterator after taking `pat` items (owned values, dropped by the harness)
+    pub fn do_forget_range_typed(&mut self, splice: bool, a0: usize, b0: usize, pat: Pat, rn: usize, follow: u8, out: &mut Out) {
+        let len = self.ma.len();
+        if !(a0 <= b0 && b0 <= len) { out.outcome.push_str("n/a"); return; }
+        let a = &mut self.a;
+        let n = pat.n as usize;
+        let r = guarded(|| {
+            let mut t = a.downcast_mut::<T>().unwrap();
+            macro_rules! drive { ($d:expr) => {{
+                let mut d = $d;
+                for i in 0..n { let x = if pat.back(i) { d.next_back() } else { d.next() }; let _w = elem::WindowOff::new(); drop(x); }
+                std::mem::forget(d);
+            }} }
+            if splice { let (it, _) = crate::exec_range::ReplT::<T>::new(rn, 0); drive!(t.splice(a0..b0, it)); } else { drive!(t.drain(a0..b0)); }
+        });
+        if let Err(e) = r { if matches!(e, Caught::Injected) { out.faulted = true; } else { out.fail(Class::Vec, "unexpected-panic", format!("{e:?}")); out.faulted = true; } return; }
+        if splice {
+            out.leak_ok = true;
+            let s = snap::<T, Tr, M>(&self.a);
+            let orig: Vec<u16> = self.ma.iter().map(|m| match m { Mv::Id(i) => *i, Mv::CloneOf(p) => *p }).collect();
+            if T::SIZE != 0 { for i in 0..a0.min(s.len()) { if s[i].0 != orig[i] { out.fail(Class::Vec, "forget-prefix-changed", format!("element {i} before the range start {a0} changed")); } } }
+            if s.len() < a0 { out.fail(Class::Vec, "forget-prefix-lost", format!("after forget the vector has {} elements, the {a0} before the range must survive", s.len())); }
+            self.ma = s.iter().map(|(id, _)| Mv::Id(*id)).collect();
+            crate::exec_clone::follow_up_pub::<T, Tr, M>(&mut self.a, &mut self.ma, follow, out);
+            out.outcome.push_str("ok");
+        } else {
+            self.after_forget(a0, follow, out);
+        }
+    }
+
     /// C07: forget a drain / splice iterator at a stage of consumption, or an item it yielded
     pub fn do_forget_range(&mut self, splice: bool, a0: usize, b0: usize, pat: Pat, stage: u8, rn: usize, follow: u8, out: &mut Out) {
         let len = self.ma.len();
